@@ -547,6 +547,10 @@ func report(verif, prop, tier string, seed int, results []*FuncResult, obs []*Ob
 		}
 		cov["functions_without_contract"] = without
 		cov["generated_functions_outside_contracts"] = generated
+		if sites := theWorld.typeinvSitesOutsideContracts(sweepSels); len(sites) > 0 {
+			cov["type_invariants_assumed_at_construction_sites_outside_contracts"] = sites
+			as = append(as, fmt.Sprintf("%d places construct values of a type with a non-trivial type invariant inside functions that are not under contract: there the invariant is assumed, not proved (listed in coverage)", len(sites)))
+		}
 		cov["zero_annotation_sweep"] = map[string]any{"functions_verified_against_the_empty_contract": sweepCount, "listed_but_no_longer_present": sweepGone,
 			"meaning": "functions of /verif/contracts/sweep.list have no contract; they are verified for arbitrary well-typed arguments with no precondition, safety obligations only"}
 		as = append(as, fmt.Sprintf("%d hand-written functions of /repo have neither a contract nor a place in the sweep list (listed in coverage.functions_without_contract): their panic-freedom is NOT decided; %d functions of generated files (expressions/scanner.go, expressions/y.go) are outside the contracts", len(without), len(generated)))
@@ -731,5 +735,72 @@ func (w *World) verifyGlobalInvs(prop string) []*FuncResult {
 		}
 		out = append(out, r)
 	}
+	return out
+}
+
+// typeinvSitesOutsideContracts: a type invariant is proved where values of the type are built
+// inside functions under contract; construction in any other function of /repo is an
+// assumption, listed here.
+func (w *World) typeinvSitesOutsideContracts(sweep map[string]bool) []string {
+	under := map[*ssa.Function]bool{}
+	for sel, c := range w.cons {
+		if c.External || c.Unverified {
+			continue
+		}
+		if fn := w.fns[sel]; fn != nil {
+			under[fn] = true
+		}
+	}
+	for sel := range sweep {
+		if fn := w.fns[sel]; fn != nil {
+			under[fn] = true
+		}
+	}
+	covered := func(fn *ssa.Function) bool {
+		for f := fn; f != nil; f = f.Parent() {
+			if under[f] {
+				return true
+			}
+		}
+		return false
+	}
+	seen := map[string]bool{}
+	for _, fn := range w.allFns {
+		if !w.inRepo(fn) || len(fn.Blocks) == 0 || fn.Synthetic != "" || covered(fn) {
+			continue
+		}
+		if fn.Pos().IsValid() && strings.HasSuffix(w.prog.Fset.Position(fn.Pos()).Filename, "_test.go") {
+			continue
+		}
+		for _, b := range fn.Blocks {
+			for _, in := range b.Instrs {
+				var t types.Type
+				switch x := in.(type) {
+				case *ssa.Alloc:
+					t = x.Type().(*types.Pointer).Elem()
+				case *ssa.MakeInterface:
+					t = x.X.Type()
+				case *ssa.ChangeType:
+					t = x.Type()
+				}
+				if t == nil {
+					continue
+				}
+				if p, ok := types.Unalias(t).Underlying().(*types.Pointer); ok {
+					t = p.Elem()
+				}
+				cl := w.typeInvs[typeString(t)]
+				if cl == nil || strings.TrimSpace(cl.Text) == "true" {
+					continue
+				}
+				seen[typeString(t)+" in "+shortName(fn.String())] = true
+			}
+		}
+	}
+	var out []string
+	for s := range seen {
+		out = append(out, s)
+	}
+	sort.Strings(out)
 	return out
 }
